@@ -5,11 +5,12 @@ import TTV.Drv.C06
 /-! Driver glue for C07.  Inputs
   `(describe <m> <v> <annotated> <verbose>)`        matcher / value grammar of `TTV.Drv.C06`
   `(textrepr <isBytes> <ml> (np…) (c…))`             ml = `none` | `(some T|F)`
-  `(assert <api> ((base suffix)…) <mismatch>)`       mismatch = `none` | `(some (d…))`
+  `(assert <api> ((base suffix)…) <mismatch> [<after> <tearDown> (<cleanup>…)])`   mismatch = `none` | `(some (d…))`,
+                                                     acts = ret|skip|xfail|uxsuccess|failure|error|interrupt
 Traces
   `(describe <str> <matched> <describe> <details> <errStr>)`   result = `ok` | `(raised Cls)`
   `(textrepr (out…) <back> (repr…) <reprBack>)`                back = `none` | `(some (c…))`
-  `(assert <raised> <continued> ((base suffix)…) <forceFailure> <outcome>)` -/
+  `(assert <raised> <continued> ((base suffix)…) <forceFailure> <outcome> <propagated>)` -/
 namespace TTV.Drv.C07
 open TTV TTV.Sexp TTV.Describe
 open TTV.Matchers (Verdict ExcCls)
@@ -33,9 +34,16 @@ def api? : Sexp → Option Api
   | _ => none
 def outcome? : Sexp → Option Outcome
   | .atom "success" => some .success | .atom "failure" => some .failure | .atom "error" => some .error
+  | .atom "skip" => some .skip | .atom "xfail" => some .xfail | .atom "uxsuccess" => some .uxsuccess
   | _ => none
 def ofOutcome : Outcome → Sexp
   | .success => .atom "success" | .failure => .atom "failure" | .error => .atom "error"
+  | .skip => .atom "skip" | .xfail => .atom "xfail" | .uxsuccess => .atom "uxsuccess"
+def act? : Sexp → Option Act
+  | .atom "ret" => some .ret | .atom "skip" => some .skip | .atom "xfail" => some .xfail
+  | .atom "uxsuccess" => some .uxsuccess | .atom "failure" => some .failure | .atom "error" => some .error
+  | .atom "interrupt" => some .interrupt
+  | _ => none
 
 def input? : Sexp → Option Input
   | .list [.atom "describe", m, v, a, vb] => do
@@ -44,6 +52,9 @@ def input? : Sexp → Option Input
       some (.textRepr (← bool? b) (← opt? bool? ml) (← list? nat? np) (← list? nat? s))
   | .list [.atom "assert", api, ex, mm] => do
       some (.assert { api := ← api? api, existing := ← list? name? ex, mismatch := ← opt? (list? nat?) mm })
+  | .list [.atom "assert", api, ex, mm, af, td, cs] => do
+      some (.assert { api := ← api? api, existing := ← list? name? ex, mismatch := ← opt? (list? nat?) mm,
+                      after := ← act? af, tearDown := ← act? td, cleanups := ← list? act? cs })
   | _ => none
 
 def trace? : Sexp → Option Trace
@@ -51,16 +62,16 @@ def trace? : Sexp → Option Trace
       some (.describe (← r? s) (← C06.verdict? m) (← r? d) (← r? g) (← r? e))
   | .list [.atom "textrepr", o, b, r, rb] => do
       some (.textRepr (← list? nat? o) (← opt? (list? nat?) b) (← list? nat? r) (← opt? (list? nat?) rb))
-  | .list [.atom "assert", r, c, ns, ff, o] => do
+  | .list [.atom "assert", r, c, ns, ff, o, pr] => do
       some (.assert { raised := ← bool? r, continued := ← bool? c, names := ← list? name? ns,
-                      forceFailure := ← bool? ff, outcome := ← outcome? o })
+                      forceFailure := ← bool? ff, outcome := ← outcome? o, propagated := ← bool? pr })
   | _ => none
 
 def ofTrace : Trace → Sexp
   | .describe s m d g e => tag "describe" [ofR s, C06.ofVerdict m, ofR d, ofR g, ofR e]
   | .textRepr o b r rb => tag "textrepr" [ofList ofNat o, ofOpt (ofList ofNat) b, ofList ofNat r, ofOpt (ofList ofNat) rb]
   | .assert o => tag "assert" [ofBool o.raised, ofBool o.continued, ofList ofName o.names, ofBool o.forceFailure,
-                               ofOutcome o.outcome]
+                               ofOutcome o.outcome, ofBool o.propagated]
 
 def drv : PropDrv Input Trace :=
   { decI := input?, decT := trace?, encT := ofTrace, model := model, clauses := Spec.C07.clauses }
